@@ -75,11 +75,13 @@ CLAIMED = {
         note="zstd/lz4 round-trip is a hypothesis (exercised through the implementation's own decoder); bincode (serde "
              "feature) not modelled; needs hook H1."),
     "C10": dict(
-        text="Theorem: for every log size and every sequence of open/append/restart sessions within capacity, the next "
-             "open returns every tombstone ever appended and resumes right behind the last one (the n-th tombstone sits "
-             "in slot n). The pinned snapshot's model (F5) is refuted by a kernel-checked witness. Correspondence: real "
-             "TombstoneLog on an FsDevice across restart cycles, grid of delete counts around page boundaries, "
-             "beyond-capacity wraps compared with the model.",
+        text="Theorem: for every log size and every sequence of open/append/restart sessions within capacity, with sequences "
+             "that are ANY non-zero numbers in ANY order (several flushers write the log batch by batch, not in sequence "
+             "order), the next open returns every tombstone ever appended and resumes right behind the last one (the n-th "
+             "tombstone sits in slot n). The pinned snapshot's rules (F5: page offset lost; F22: resume behind the newest "
+             "tombstone) are refuted by kernel-checked witnesses. Correspondence: real TombstoneLog on an FsDevice across "
+             "restart cycles, grid of delete counts around page boundaries, batches appended in sequence order / reversed / "
+             "evens before odds, beyond-capacity wraps compared with the model; end-to-end removes with 1..3 flushers.",
         ref="4/C10", tech="Coq proof (layout invariant over sessions) + extracted-model correspondence",
         note="drives TombstoneLog directly (hook H1); suppression of entries by tombstones during recovery is covered "
              "with the recovery model (C04) when built."),
@@ -100,7 +102,8 @@ CLAIMED = {
              "hence with no outstanding handles an insert re-establishes the bound. Correspondence of refs / "
              "is_outdated / handle contents after every operation.",
         ref="4/C18", tech="Coq proof (handle/refs invariant) + extracted-model correspondence",
-        note="the concurrent DecRefs/Release window is C02's subject."),
+        note="the concurrent dec-refs/release window (F26, found and fixed) is exercised by bin/pinrace: threads looking one key "
+             "up, holding and dropping the handle under eviction pressure."),
 }
 
 ALL = ["C%02d" % i for i in range(1, 19)]
@@ -219,7 +222,8 @@ CLAIMED.update({
              "returns without it; with callbacks inside the critical section any callback that uses the cache blocks. Checked on "
              "the real cache: listener, weighter, filter and value destructor all call back into the same single-shard cache "
              "(get, contains, insert, remove, nested one level), all five algorithms, 1..3 threads, capacities 1..3, phantom "
-             "inserts, under a watchdog.",
+             "inserts, under a watchdog; key destructors and unused fetch futures re-entering the cache (bin/reentkeys; found "
+             "and fixed F27).",
         ref="4/C16", tech="Coq proof (lock-phase model) + re-entrant concurrent runs of the real cache under a deadlock watchdog",
         note="PARTIAL: the model states the discipline; that every code path follows it is what the re-entrant runs test "
              "(a callback invoked under the lock deadlocks deterministically on a single shard, as seeded changes C16-m1/m2 "
